@@ -92,8 +92,9 @@ func CountCommon(res *fw.Result, h *History, ci CaseInfo) {
 				learned++
 			}
 		}
-		if s.Filter.Kind != 0 {
+		if !s.Filter.None() {
 			res.Count("subscribers_with_filter", 1)
+			res.Count("filter_shape_"+s.Filter.Shape(), 1)
 		}
 		lg := s.W.Log()
 		wcalls += int64(len(lg.Calls))
